@@ -334,14 +334,27 @@ class Path:
         return g
 
     def _abs_query(self, extra, timeout=800):
-        s = z3.Solver()
-        s.set('timeout', timeout)
-        for p in self.pc:
+        # one incremental solver per path: the path condition only grows (except for the temporary
+        # hypotheses of clause lists / quantifier bodies, detected by comparing the asserted prefix)
+        s = getattr(self, '_abs_solver', None)
+        done = getattr(self, '_abs_done', None)
+        pc = self.pc
+        if s is None or len(done) > len(pc) or any(d is not p for d, p in zip(done, pc)):
+            s = z3.Solver()
+            s.set('timeout', timeout)
+            done = []
+            self._abs_solver, self._abs_done = s, done
+        for p in pc[len(done):]:
             g = self._abstract(p)
             if g is not None:
                 s.add(g)
-        s.add(extra)
-        return s.check()
+            done.append(p)
+        s.push()
+        try:
+            s.add(extra)
+            return s.check()
+        finally:
+            s.pop()
 
     def feasible(self, c):
         if c is True:
